@@ -146,7 +146,7 @@ def build_driver():
     return os.path.join(DRIVER_TARGET, 'debug/smi-native-driver')
 
 
-def run_driver(exe, d, start, out, fail_at=None, repeat=1, order=None, short=False, timeout=120, kind=None):
+def run_driver(exe, d, start, out, fail_at=None, repeat=1, order=None, short=False, timeout=120, kind=None, once=False):
     cmd = [exe, 'gen', d, start, out]
     if fail_at is not None:
         cmd += ['--fail-at', str(fail_at)]
@@ -158,6 +158,8 @@ def run_driver(exe, d, start, out, fail_at=None, repeat=1, order=None, short=Fal
         cmd += ['--short']
     if kind:
         cmd += ['--kind', kind]
+    if once:
+        cmd += ['--once']
     return run(cmd, timeout=timeout, mem_kb=4_000_000)
 
 
